@@ -559,13 +559,16 @@ func genFrameLen() (string, error) {
 		var tooLarge, incomplete, notCont ast.Expr
 		for _, c := range ff.conds {
 			k := ""
+			xIsCall := false
 			if b, ok := c.(*ast.BinaryExpr); ok {
 				k = exprKey(b.X) + " " + b.Op.String() + " " + exprKey(b.Y)
+				_, xIsCall = b.X.(*ast.CallExpr)
+				xIsCall = xIsCall && b.Op.String() == ">"
 			}
 			switch {
 			case k == "fh.Length > fr.maxReadSize":
 				tooLarge = c
-			case strings.HasPrefix(k, "?*ast.CallExpr > "):
+			case xIsCall:
 				incomplete = c
 			case k == "fh.Type != FrameContinuation":
 				notCont = c
